@@ -75,7 +75,8 @@ var (
 func encodeString(value string) []byte {
 
 	if value == "" {
-		return []byte{_nilTag}
+		// a zero-length string; null would be read back as the end of a list or a missing element
+		return []byte{_stringShortLenMin}
 	}
 
 	dataBys := []rune(value)
